@@ -33,7 +33,7 @@ REQUIRE = {'hits_checked': 5000, 'refused_by_count': 200, 'refused_by_period': 2
            'overlap_cases': 30, 'hits_while_collection_open': 30, 'interpose_points': 15,
            'overlap_cases_with_condition': 8, 'sequential_probe_hits': 60,
            'line_preemption_points': 40, 'line_preemptions_where_second_hit_completed': 2,
-           'window_argument_cases': 6, 'straggler_cases': 6, 'settings_that_are_not_text': 30}
+           'window_argument_cases': 6, 'straggler_cases': 6, 'settings_that_are_not_text': 30, 'two_tracepoint_cases': 4}
 T0 = 1_700_000_000_000_000_000
 MS = 1_000_000
 
@@ -56,6 +56,7 @@ def plan(tier, seed):
     specs += split_seeds('l%s' % seed, 8 * n, 4, 'linepreempt')
     specs += split_seeds('w%s' % seed, 8 * n, 1, 'argwindow')
     specs += split_seeds('z%s' % seed, 8 * n, 1, 'straggler')
+    specs += split_seeds('t%s' % seed, 6 * n, 1, 'twotp')
     return specs
 
 
@@ -142,7 +143,7 @@ def case_hist(seed, out, spec, wd):
     r = Rng('c04', seed)
     plugins.reset()
     kind = r.pick(['snapshot', 'snapshot', 'log', 'metric', 'span'])
-    fc_raw = r.pick([-1, 0, 1, 1, 2, 3, 10, '2', '-1', 'abc', '1.5', '', 'absent', ' 3 '])
+    fc_raw = r.pick([-1, 0, 1, 1, 2, 3, 10, '2', '-1', 'abc', '1.5', '', 'absent', ' 3 ', -2, '-100'])
     fp_raw = r.pick([0, 1, 10, 1000, '10', 'abc', 'absent', '0'])
     via_wire = r.chance(0.35)
     if not via_wire and r.chance(0.08):
@@ -863,6 +864,71 @@ def case_straggler(seed, out, spec, wd):
     out.case({'straggler': order, 'fp': fp, 'kind': kind}, nontrivial=True, sample=witness)
 
 
+def case_twotp(seed, out, spec, wd):
+    """Two tracepoints on neighbouring lines. One thread is held inside the collection of the first; a second thread
+    is refused there (rightly: the first hit is still open) and goes on to the second tracepoint, whose own budget is
+    untouched: it acts for that thread, whatever the first tracepoint is doing."""
+    import os
+    r = Rng('c04t', seed)
+    plugins.reset()
+    path, mod, line = setup_host(wd, 't')
+    base = os.path.basename(path)
+    a_cfg = {'fire_count': r.pick([1, 2]), 'fire_period': r.pick([0, 1000])}
+    b_cfg = {'fire_count': r.pick([1, 1, 3]), 'fire_period': r.pick([1000, 0]), 'log_msg': 'second tracepoint'}
+    trig_a = direct_trigger('A', base, line, 'Snapshot', a_cfg)
+    trig_b = direct_trigger('B', base, line + 1, 'Log', b_cfg)
+    rig = Rig(custom={}, host_dir=wd, plugins=[plugins.RecLogger()])
+    rig.install([trig_a, trig_b])
+    gate = HoldGate(True)
+    logs = []
+
+    def hook(name, callback, payload):
+        if callback == 'log':
+            logs.append(threading.current_thread().name)
+
+    plugins.HOOK[0] = hook
+    seen = {}
+
+    def body():
+        clock.set_virtual(T0)
+        t1 = threading.Thread(target=mod.leaf, args=(gate, True), name='held-in-first')
+        t1.start()
+        if not gate.parked.wait(5):
+            gate.release.set()
+            t1.join(10)
+            return 'not-parked'
+        clock.set_virtual(T0 + r.pick([0, 1, 5]) * MS)
+        t2 = threading.Thread(target=mod.leaf, args=(HoldGate(False), True), name='passes-by')
+        t2.start()
+        t2.join(10)
+        seen['while_first_is_open'] = list(logs)
+        gate.release.set()
+        t1.join(10)
+        return 'ok' if not (t1.is_alive() or t2.is_alive()) else 'hung'
+
+    try:
+        res, exc = rig.run(body)
+    finally:
+        clock.set_virtual(None)
+        plugins.HOOK[0] = None
+    rig.cleanup()
+    replay = replay_spec(spec, seed)
+    witness = {'first_tracepoint': a_cfg, 'second_tracepoint': b_cfg, 'second_tracepoint_acted_for': list(logs),
+               'acted_while_first_was_open': seen.get('while_first_is_open')}
+    if res != 'ok' or exc is not None:
+        out.inconc('C04 two-tracepoint schedule did not run as planned (%r, %r)' % (res, exc))
+        return
+    if 'passes-by' not in (seen.get('while_first_is_open') or []):
+        out.violation('ratelimit:due-hit-not-collected',
+                      'the second tracepoint (own budget untouched: %s) did not act for a thread that reached it while '
+                      'another thread was inside the collection of the first tracepoint' % (b_cfg,), witness, replay)
+    if len(logs) > (b_cfg['fire_count']):
+        out.violation('ratelimit:exceeded-count', 'second tracepoint acted %d times with fire_count=%d' % (
+            len(logs), b_cfg['fire_count']), witness, replay)
+    out.count('two_tracepoint_cases')
+    out.case({'twotp': [a_cfg, b_cfg]}, nontrivial=True, sample=witness)
+
+
 def case_linepreempt(seed, out, spec, wd):
     """Pre-emption inside the limiter itself: thread A asks the action whether its hit may collect; at its k-th line
     inside deep/api/tracepoint (every k is tried, sys.monitoring LINE events) a second thread performs a complete hit
@@ -971,7 +1037,7 @@ def case_linepreempt(seed, out, spec, wd):
 
 
 CASES = {'hist': case_hist, 'gate': case_gate, 'stress': case_stress, 'overlap': case_overlap,
-         'interpose': case_interpose, 'linepreempt': case_linepreempt, 'argwindow': case_argwindow, 'straggler': case_straggler}
+         'interpose': case_interpose, 'linepreempt': case_linepreempt, 'argwindow': case_argwindow, 'straggler': case_straggler, 'twotp': case_twotp}
 
 
 def run_shard(spec, out):
